@@ -25,6 +25,10 @@ class Unsupported(EngineError):
 class PathEnd(EngineError):
     """Current path is abandoned (infeasible or pruned)."""
 
+class PathDone(PathEnd):
+    """Current path ends here by contract (e.g. an arbitrary loop iteration was checked);
+    unlike PathEnd the obligations recorded on it are kept."""
+
 
 # the engine currently exploring (set by engine.Engine)
 _ENGINE = [None]
